@@ -23,6 +23,9 @@ def run(ctx, prog, facts, tier):
     rules_text.check_parsed_board_consistent(ctx, prog, 'C15', full=(tier != 'quick'))
     rules_text.check_print_parse_layout(ctx, prog, 'C15')
     rules_hash.check_parser_start_state(ctx, prog)
+    # "same transposition hash": the parser's from-scratch hash is the XOR over exactly the pieces on the board, i.e. the value the
+    # incremental updates maintain (C08.2b-d); decided on from_piece_board itself
+    rules_hash.check_from_piece_board(ctx, prog, inputs.make_interp(prog, fuel=5000000))
     ctx.floor('C15 parser panic site kinds (function, construct)', ctx.analysed.get('panic_site_kinds_parser', 0), 9)
     ctx.exhaustive = True
     ctx.assumptions += [
